@@ -7,8 +7,9 @@ Import ListNotations.
 
 Definition rmk := (bytes * N)%type.
 Definition rmk_mem (x : rmk) (l : list rmk) : bool := existsb (key_eqb x) l.
+(* sets of addresses: two entries at one address are one destination *)
 Definition rmk_set_eqb (a b : list rmk) : bool :=
-  Nat.eqb (length a) (length b) && forallb (fun x => rmk_mem x b) a && forallb (fun x => rmk_mem x a) b.
+  forallb (fun x => rmk_mem x b) a && forallb (fun x => rmk_mem x a) b.
 Definition rm_keys (l : list node) : list rmk := map (fun n => addr_key (n_addr n)) l.
 
 Inductive rm_obs := ROPing (i : nat) (l : list rmk) | RORefresh (i : nat) (l : list rmk) | ROBreak (i : nat) | RODone.
